@@ -515,8 +515,34 @@ func (fr *Frame) havocExternal(cc *ssa.CallCommon, args []Val) {
 		visit(a.Type(), 0)
 	}
 	if all {
-		fr.havocAllHeap()
+		// A-FRAME: library code reached through interface values or callbacks still does not write data of
+		// module-declared types; everything else is forgotten
+		for _, n := range h.Names() {
+			if !fr.moduleOwnedComp(n) {
+				h.Havoc(fr.st, n)
+			}
+		}
 	}
+}
+
+// moduleOwnedComp: the component holds fields of a module-declared struct, or a map/slice/cell whose key or element
+// type is declared in the module.
+func (fr *Frame) moduleOwnedComp(name string) bool {
+	if strings.HasPrefix(name, "F.") {
+		return fr.moduleComp(name)
+	}
+	if name == chanClosedComp {
+		return false
+	}
+	for key, p := range fr.R.Eng.TypePkgs {
+		if !strings.HasPrefix(key, "name:") || !fr.R.Eng.InModule(p) {
+			continue
+		}
+		if strings.Contains(name, p.Name()+".") {
+			return true
+		}
+	}
+	return false
 }
 
 func isContextType(t types.Type) bool {
@@ -576,6 +602,22 @@ func (fr *Frame) canInline(fn *ssa.Function, bindings []Val) bool {
 	if len(fn.Blocks) > 60 {
 		return false
 	}
+	if fr.R.inlinedBlocks+len(fn.Blocks) > 600 {
+		// keep verification conditions small: beyond this budget callees are abstracted (havoc)
+		return false
+	}
+	if c := fr.R.Contract; c != nil && len(fn.FreeVars) == 0 {
+		// a callee the contract observes as an event is kept opaque
+		names := []string{fn.Name(), fr.R.fnShort(fn)}
+		if fn.Pkg != nil {
+			names = append(names, fn.Pkg.Pkg.Name()+"."+fn.Name(), fn.RelString(fn.Pkg.Pkg))
+		}
+		for _, tr := range c.Tracks {
+			if nameMatches(names, tr.Callee) && fn.Parent() == nil {
+				return false
+			}
+		}
+	}
 	ci := analyzeCFG(fn)
 	if len(ci.headers) > 0 {
 		return false
@@ -585,6 +627,7 @@ func (fr *Frame) canInline(fn *ssa.Function, bindings []Val) bool {
 
 func (fr *Frame) inlineCall(fn *ssa.Function, args []Val, bindings []Val, pos token.Pos) Val {
 	fr.R.Inlined[fr.R.fnShort(fn)] = true
+	fr.R.inlinedBlocks += len(fn.Blocks)
 	fr.R.frameN++
 	nf := &Frame{R: fr.R, Fn: fn, env: map[ssa.Value]Val{}, depth: fr.depth + 1, names: map[string]Val{}, nameTys: map[string]types.Type{}, id: fr.R.frameN, loopsUsed: map[int]bool{}, parent: fr}
 	for i, p := range fn.Params {
